@@ -8,7 +8,9 @@ d=seeded/$name
 prop=$(python3 -c "import json;print(json.load(open('$d/meta.json'))['property'])")
 git -C /repo apply --check "$PWD/$d/patch.diff" || { echo "patch does not apply"; exit 3; }
 git -C /repo apply "$PWD/$d/patch.diff"
-trap 'git -C /repo apply -R "'"$PWD/$d/patch.diff"'"' EXIT
+# the check rewrites evidence/<id>.json: keep the evidence of the unchanged tree
+ev="evidence/$prop.json"; [ -f "$ev" ] && cp "$ev" "out/.evidence-$prop.keep"
+trap 'git -C /repo apply -R "'"$PWD/$d/patch.diff"'"; [ -f "out/.evidence-'"$prop"'.keep" ] && mv "out/.evidence-'"$prop"'.keep" "evidence/'"$prop"'.json"' EXIT
 ./check "$prop" --tier "$tier" > "out/seed-$name.log" 2>&1
 rc=$?
 grep -E "^VIOLATION|^INCONCLUSIVE|^KNOWN-FINDING|OK tier" "out/seed-$name.log" | head -8
